@@ -121,6 +121,26 @@ def _work(args):
                 raise RuntimeError('body raises')
         guarded('tmp_seed(normal body)', tmp_ok)
         guarded('tmp_seed(raising body)', tmp_raise)
+        # the public mixture routine with an explicit seed (every int is a seed, 0 included): same answer whatever the prior
+        # state, and the state left alone
+        from ampycloud import layer
+        hs = np.array(sorted({r[2] for r in rows if r[2] == r[2]}), dtype=float)
+        if len(hs) >= 6 and k % 3 == 0:
+            for sd in (0, 1, 42):
+                outs = []
+                for prior in (11, 12):
+                    np.random.seed(prior + k); np.random.random(prior)
+                    before = rng_digest()
+                    try:
+                        n_, ids_, sc_ = layer.ncomp_from_gmm(hs.copy(), min_sep=0, random_seed=sd)
+                        outs.append((int(n_), np.asarray(ids_).tobytes(), None if sc_ is None else np.asarray(sc_).tobytes()))
+                    except Exception as e:
+                        outs.append(('raised', type(e).__name__))
+                    if rng_digest() != before:
+                        findings.append(('C09.global-random-state-untouched', f'layer.ncomp_from_gmm(random_seed={sd}) changed np.random state'))
+                if outs[0] != outs[1]:
+                    findings.append(('C09.bit-identical-under-prior-state-and-history',
+                                     f'layer.ncomp_from_gmm(random_seed={sd}) depends on the prior global state'))
         # the seeded body sees the same numbers whatever the prior state
         np.random.seed(1)
         with utils.tmp_seed(99):
